@@ -1,4 +1,4 @@
-HOOK_COMMITS = ["94172af"]
+HOOK_COMMITS = ["94172af", "dd1b337"]
 NOTES = ("Model-based verification with explicit TLA+ specifications (specs/), TLC, and a Go conformance harness (harness/). "
          "Exit 2 of a check = infrastructure trouble, never a verdict. See DESIGN.md.")
 NOT_APPLICABLE = {}
@@ -8,5 +8,17 @@ CHECKS = {
         technique="TLA+ round machine (Poseidon.tla) model-checked by TLC; every TLC behaviour replayed into the Go gadgets (test engine over tiny primes exhaustively, BN254 test engine + compiled R1CS)",
         text="Poseidon.tla is an executable round-machine specification (KAT-pinned, frozen constants). TLC enumerates all inputs over tiny prime fields and value classes / call sessions at BN254; each behaviour's expected output is compared with the Go gadget's output and any other output must be unsatisfiable.",
         note="Trusted: BigInteger arithmetic in the BigField override (cross-validated on small moduli), gnark's test engine and R1CS solver, the frozen circomlib parameter set (pinned by published vectors and go-iden3-crypto). At BN254 inputs are classes and seeded samples, not all field elements.",
+    ),
+    "C10": dict(
+        level="model_checking",
+        technique="TLA+ byte-level codec machine (ProofCodec.tla) model-checked over all byte-length vectors; TLC-generated vectors realised as synthetic gnark proofs and replayed through the real JSON codec, plus real Groth16 proofs",
+        text="ProofCodec.tla states the JSON layout (EVM order) and the lossless round trip for every coordinate byte-length vector; TLC checks it exhaustively over length classes and refutes the left-alignment mutant. Every short/full vector realisable by curve points is replayed through prover.Proof Marshal/Unmarshal and compared with the coordinates read from the gnark struct; seeded real proofs must still verify after the round trip.",
+        note="Trusted: gnark-crypto raw point encoding and the reflection read of Ar/Bs/Krs; Groth16 verify as oracle for 'still accepted'. Vectors with two short coordinates in one G2 point are not realised (probability 2^-16 per proof).",
+    ),
+    "C14": dict(
+        level="model_checking",
+        technique="TLA+ goroutine-level model (Server.tla) of SpawnJob/CombineJobs and net/http ListenAndServe/Shutdown model-checked with TLC (safety + termination, mutants refuted); TLC-simulated behaviours replayed as gated schedules on the real server.Run; aligned stress for timings inside net/http",
+        text="All interleavings of stop vs. both servers' start-up steps and 1..2 in-flight requests are model-checked (ListenerReleased, RebindOk, Drain, Terminates). Behaviours of ServerGen.tla (run-to-gate semantics) drive the real code with every verif hook as a gate: settled goroutine positions, responses, AwaitStop return and re-bind of both addresses are compared with the spec at every decision. The ListenAndServe/Shutdown race that no hook can gate is exercised by aligned start/stop cycles on the same addresses.",
+        note="Trusted: the transcription of net/http's ListenAndServe/Shutdown steps; schedules inside net/http are sampled by stress, not enumerated. SIGINT delivery before signal.Notify is outside the property.",
     ),
 }
